@@ -79,6 +79,25 @@ def float_power_singular(ode, s, pt, lay, gi, g):
         return False
 
 
+def numerator_is_a_number(ode, s):
+    """the class of the listed finding: the linearisation of the state's rate is a product of non-zero numbers and
+    reciprocals (a non-zero number divided by an expression), which is all the shortcut at the pinned commit accepts"""
+    import sympy
+
+    def shape(e):
+        if isinstance(e, sympy.Pow):
+            return e.args[1] is sympy.S.NegativeOne
+        if isinstance(e, sympy.Mul):
+            return all((len(a.free_symbols) == 0 and bool(a.is_nonzero)) or shape(a) for a in e.args)
+        return False
+    try:
+        d = ode[f"d{s}_dt"]
+        g = d.expr.diff(d.state.symbol)
+        return bool((len(g.free_symbols) == 0 and g.is_nonzero) or shape(g))
+    except Exception:  # noqa: BLE001
+        return False
+
+
 def check_text(rep, drv, rng, text, delta, fname, points, model=None, extra=None):
     """shared by random and directed cases; points: list of dicts (t, dt, states, params)"""
     c = pipeline.Case(drv, text, model)
@@ -119,6 +138,8 @@ def check_text(rep, drv, rng, text, delta, fname, points, model=None, extra=None
                 structural = (f"rejected by Schemes.valid_scheme with the observed modes {modes}: {v}",
                               {"kind": "validator", "relation": "Schemes.valid_scheme (all states stiff)", "text": text,
                                "delta": delta, "modes": modes, "failing_input": None})
+            elif fname == "generalized_rush_larsen":
+                so.check_mirror_rl(rep, drv, text, fns[fname]["args"], body, ss, modes, ss, delta)
             pred = drv.ask(["predict", [s for s in ss if verd[s]["nonzero"]]])
             for s, mo, mp, lz in zip(ss, modes, pred["modes"], pred["lin_zero"]):
                 rep.count("mode:" + mo)
@@ -194,20 +215,24 @@ def check_text(rep, drv, rng, text, delta, fname, points, model=None, extra=None
             want = so.spec_update(x, f, g, dt, delta)
             got = float(out[i])
             ok = close(got, want, S + abs(x) + abs(want), 1e-8) or (math.isinf(want) and not math.isfinite(got))
+            key = None
             if not ok and mode == "plain" and 0 < abs(g) <= delta:
-                # certainly non-zero but below delta: the unguarded formula is accepted
+                # the guard was dropped ("certainly non-zero") and |g| <= delta: the property asks for the Euler update.
+                # For a linearisation that is a numeric constant this is the listed finding; for any other g it is not.
                 try:
                     alt = x + f / g * math.expm1(g * dt)
                 except OverflowError:
                     alt = math.copysign(float("inf"), f / g)
-                ok = close(got, alt, S + abs(x) + abs(alt), 1e-8) if math.isfinite(alt) else (got == alt or got != got)
+                unguarded = close(got, alt, S + abs(x) + abs(alt), 1e-8) if math.isfinite(alt) else (got == alt or got != got)
+                if unguarded and numerator_is_a_number(c.ode, s):
+                    key = "C06-constant-numerator-linearisation-ignores-delta"
                 rep.count("plain_mode_below_delta")
             if not ok and abs(abs(g) - delta) <= 1e-13 * max(delta, 1e-300):
                 ok = True   # exactly on the boundary up to rounding of g itself
             if not ok:
                 failing = (f"{fname}: slot of {s} = {got!r}; x + (f/g)(exp(g dt) - 1) guarded by |g| > {delta} gives {want!r} "
                            f"(x={x!r}, f={f!r}, g={g!r}, dt={dt!r})",
-                           {"kind": "direct", "text": text, "inputs": pt, "delta": delta, "state": s, "mode": mode})
+                           {"kind": "direct", "text": text, "inputs": pt, "delta": delta, "state": s, "mode": mode}, key)
                 break
             if math.isfinite(f) and math.isfinite(g) and math.isfinite(want) and not math.isfinite(got) \
                     and not (mode == "plain" and 0 < abs(g) <= delta):
@@ -270,6 +295,20 @@ def main(argv=None):
                  [{"t": 1.0, "dt": 0.0625, "states": {"b2": 0.0, "V": 0.125}, "params": {}},
                   {"t": 1.0, "dt": 0.0625, "states": {"b2": 0.75, "V": 0.125}, "params": {}}])
     rep.case(key=text, nontrivial=True)
+    # ---- the witness of the constant-linearisation finding (guard dropped for a numeric g, delta not honoured)
+    text = "states(x=1, y=2)\ndx_dt = -0.3*x + y\ndy_dt = -y\n"
+    core.guarded(rep, text, check_text, rep, drv, rng, text, 0.5, "generalized_rush_larsen",
+                 [{"t": 0.0, "dt": 1.0, "states": {"x": 1.25, "y": 0.5}, "params": {}}])
+    rep.case(key=text, nontrivial=True)
+    # ---- gating-variable shapes: the linearisation is a symbolic factor that can never be exactly zero (exp, cosh,
+    #      a logistic) but does drop below delta or underflow - the guard has to stay
+    text = ("states(x=0.5, V=1, w=0.25)\nparameters(xinf=1)\ndx_dt = (xinf - x)*exp(-V*V)\ndV_dt = 0.1 - V/(1 + exp(V))\n"
+            "dw_dt = (xinf - w)/(1 + exp(V))\n")
+    gpts = [{"t": 0.0, "dt": dtv, "states": {"x": 0.5, "V": Vv, "w": 0.25}, "params": {"xinf": 1.0}}
+            for Vv in (5.0, 3.0, 30.0, 0.5) for dtv in (0.125, 100.0)]
+    for dlt in (1e-8, 1e-3):
+        core.guarded(rep, text, check_text, rep, drv, rng, text, dlt, "generalized_rush_larsen", gpts)
+        rep.case(key=(text, dlt), nontrivial=True)
     # ---- random models
     for i in range(n):
         got = family.new_case(drv, rng, gen, rep, self_dep=0.85)
